@@ -153,43 +153,36 @@ class MismatchShape(Exception):
     pass
 
 
-def compare(f, g, rtol=1e-6, atol=1e-7, g_may_drop_inputs=True):
-    """Compare two funsors as functions.  Returns None if they agree, else a
-    description of the first disagreement.  ``g``'s free inputs must be among
-    ``f``'s (g may lack inputs its value does not depend on); raises Declined
+def compare(f, g, rtol=1e-6, atol=1e-7):
+    """Compare two funsors as functions on the union of their free inputs
+    (either may lack inputs its value does not depend on).  Returns None if
+    they agree, else a description of the first disagreement; raises Declined
     when either side does not evaluate."""
     if f.output != g.output:
         return "output domains differ: %s vs %s" % (f.output, g.output)
-    extra = [n for n in g.inputs if n not in f.inputs]
-    if extra:
-        return "inputs %s appear that the reference does not have (reference inputs %s)" % (extra, list(f.inputs))
     for n in g.inputs:
-        if g.inputs[n] != f.inputs[n]:
+        if n in f.inputs and g.inputs[n] != f.inputs[n]:
             return "input %s has domain %s vs %s" % (n, g.inputs[n], f.inputs[n])
-    if not g_may_drop_inputs and set(f.inputs) != set(g.inputs):
-        return "input sets differ: %s vs %s" % (list(f.inputs), list(g.inputs))
     try:
         fa, fv = denote(f)
         ga, gv = denote(g)
     except MismatchShape as e:
         return str(e)
-    # broadcast g over f's axes
-    fnames = [a[0] for a in fa]
-    gnames = [a[0] for a in ga]
-    shape = []
-    gi = 0
-    index = []
-    for n, a in zip(fnames, fa):
-        if n in gnames:
-            index.append(slice(None))
-        else:
-            index.append(None)
-    gv_b = gv[tuple(index)] if index else gv
+    faxes = {a[0]: a for a in fa}
+    gaxes = {a[0]: a for a in ga}
+    names = sorted(set(faxes) | set(gaxes))
+    sizes = [(faxes.get(n) or gaxes[n])[2] for n in names]
+
+    def expand(vals, own):
+        index = tuple(slice(None) if n in own else None for n in names)
+        v = vals[index] if index else vals
+        return np.broadcast_to(v, tuple(sizes) + tuple(vals.shape[len(own) :]))
+
     try:
-        gv_b = np.broadcast_to(gv_b, fv.shape)
+        fvb, gvb = expand(np.asarray(fv), faxes), expand(np.asarray(gv), gaxes)
     except ValueError:
-        return "value arrays do not broadcast: %s vs %s" % (fv.shape, gv.shape)
-    return compare_arrays(fv, gv_b, rtol, atol, fnames)
+        return "value arrays do not broadcast: %s vs %s" % (np.shape(fv), np.shape(gv))
+    return compare_arrays(fvb, gvb, rtol, atol, names)
 
 
 def compare_arrays(a, b, rtol=1e-6, atol=1e-7, names=()):
@@ -264,6 +257,8 @@ def canon(x, depth=0):
         return x
     if isinstance(x, funsor.ops.Op):
         return "ops." + x.__name__
+    if isinstance(x, type):
+        return repr(x)
     return repr(x) if not hasattr(x, "__dict__") else type(x).__name__
 
 
